@@ -91,7 +91,12 @@ func init() {
 		if err != nil {
 			return "encerr"
 		}
-		if hex.EncodeToString(b) == hex.EncodeToString(b2) {
+		same := hex.EncodeToString(b) == hex.EncodeToString(b2)
+		if a[0] == "NGAPPDU" {
+			// a decoded PDU (every field sits inside an open type, which the decoder copies) must not point into its input
+			retainDetached(func() string { return valTokens(p.Elem()) })
+		}
+		if same {
 			return "ok same"
 		}
 		return "ok diff " + hx(b2)
